@@ -65,8 +65,10 @@ def s1(chk: Check, proj: Project, m, cls) -> None:
         node_var = next((norm(s.targets[0]) for s in body if isinstance(s, ast.Assign) and norm(s.value) == "self.cache[key]"), None)
         rem = [i for i, s in enumerate(body) if isinstance(s, ast.Expr) and isinstance(s.value, ast.Call) and norm(s.value.func) == "self._remove" and s.value.args and norm(s.value.args[0]) == node_var]
         add = [i for i, s in enumerate(body) if isinstance(s, ast.Expr) and isinstance(s.value, ast.Call) and norm(s.value.func) == "self._add_to_front" and s.value.args and norm(s.value.args[0]) == node_var]
-        ok = node_var is not None and len(rem) == 1 and len(add) == 1 and rem[0] < add[0]
-        chk.ob("S1", f"util.cache:LRUCache.{public}:move-to-front", m.loc(hit), ok,
+        # nothing may leave the hit branch before the move (an early `return` for "nothing to update" skips the refresh)
+        early = [x for i, s in enumerate(body) if add and i < add[0] for x in ast.walk(s) if isinstance(x, (ast.Return, ast.Raise, ast.Break, ast.Continue))]
+        ok = node_var is not None and len(rem) == 1 and len(add) == 1 and rem[0] < add[0] and not early
+        chk.ob("S1", f"util.cache:LRUCache.{public}:move-to-front", m.loc(early[0]) if early else m.loc(hit), ok,
                f"on a hit `{node_var}` is removed and re-added at the front unconditionally" if ok else
                f"on a hit of {public}() the node is not unconditionally `_remove`d and `_add_to_front`ed (directly in the hit branch): a hit on some entries does not refresh them and the wrong entry is evicted next")
         if public == "get":
@@ -296,6 +298,12 @@ def s4(chk: Check, proj: Project) -> None:
     got = norm(enclosing_stmt(g[0]).targets[0]) if isinstance(enclosing_stmt(g[0]), ast.Assign) else (norm(enclosing_stmt(g[0]).target) if isinstance(enclosing_stmt(g[0]), ast.AnnAssign) else None)
     ok = any(v is not None and norm(v) == got for _s, v in hitv) and any(isinstance(v, ast.Call) and norm(v.func) == "template_cls" for _s, v in hitv)
     chk.ob("S4", "template:cached_template:hit-returns-stored", m.loc(g[0]), ok, f"a hit returns the object the cache returned (`{got}`), a miss compiles with template_cls(...)")
+    # the decision hit / miss is the cache's answer alone: the variable is not overwritten (e.g. reset to None because some
+    # attribute of the cached object differs from an argument that is NOT part of the key) before it is tested
+    redef = [st for st, v in assignments(f, got)] if got else []
+    chk.ob("S4", "template:cached_template:hit-is-the-caches-answer", m.loc(redef[1]) if len(redef) > 1 else m.loc(g[0]), len(redef) == 1,
+           f"`{got}` has a single definition, the cache lookup" if len(redef) == 1 else
+           f"`{got}` is reassigned after the lookup (`{short(redef[1])}`): a repeated key that was never evicted is recompiled and the entry overwritten, so callers alternate between different Template objects")
     stv = norm(s_[0].args[1]) if len(s_[0].args) > 1 else None
     at = cond_atoms(enclosing_stmt(s_[0]))
     okm = stv == retn and any(pol and t == f"{got} is None" for t, pol in at)
